@@ -130,7 +130,7 @@ def run(ctx):
         if not okmv:
             continue
         promo = dict(mvv[4]).get("promotion")
-        promoting = None if pawn is None else (False if not pawn else rank)
+        promoting = and3(pawn, rank)
         if promoting is None:
             ctx.fail("next:promotion-undecided", "next() yields a move without deciding whether it is a promotion (pawn and 1st/8th rank)", where)
             continue
@@ -291,7 +291,7 @@ def run(ctx):
                 hto = bool(v)
             else:
                 ctx.fail("has:unknown-decision", "has() branches on an unexpected condition: %s" % sym.show(e)[:160], loc(hb))
-        promoting = None if pawn is None else (False if not pawn else rank)
+        promoting = and3(pawn, rank)
         if st is None or promoting is None:
             pm_ok = None
             if st == "None" and promoting is None:
@@ -330,10 +330,22 @@ def run(ctx):
                 missing = [n for n, v in (("from", feq), ("to", hto), ("promo", pm_ok)) if v is None]
                 if missing == ["to"] and r == ("has", To, mto):
                     res_ok = True
+                if missing == ["from"] and r[0] == "bin" and r[1] == "Eq" and set((r[2], r[3])) == {Fr_(), mfrom}:
+                    res_ok = True
+            if res_ok:
+                n_true += 1
             ctx.check(res_ok, "has:residual", "has() returns %s on a path where (origin=%s dest=%s promotion=%s)" % (sym.show(r)[:100], feq, hto, pm_ok), loc(hb))
     ctx.floor("has: true paths", n_true, 1)
     ctx.floor("has: false paths", n_false, 3)
     ctx.assumptions += ["lowest-member and removal facts of BitBoard (C18)", "induction over next() to the full enumeration is argued, not mechanised"]
+
+
+def and3(a, b):
+    if a is False or b is False:
+        return False
+    if a is None or b is None:
+        return None
+    return True
 
 
 def Fr_():
